@@ -282,13 +282,12 @@ class BeltStore(Store):
 
             # 5) Remove it from ready_items wherever it currently is
             try:
+                insert_idx = self.ready_items.index(item)
                 self.ready_items.remove(item)
             except ValueError:
                 raise RuntimeError(f"Item {item!r} not found in ready_items during cancel.")
 
-            # 6) Compute new insertion index
-           
-            insert_idx = len(self.ready_items) - len(self.reserved_events) - 1
+            # 6) the released item goes back to the place it had in ready_items
             
             # 7) Re‑insert it
             self.ready_items.insert(insert_idx, item)
@@ -395,9 +394,8 @@ class BeltStore(Store):
             Called when a process reserves an item.
             But do NOT remove it yet—just record the exact item.
             """
-            j = len(self.reserved_events)
-           
-            item = self.ready_items[j]
+            # bind the first ready item that no other token holds
+            item = next(it for it in self.ready_items if not any(it is r for r in self.reserved_items))
             
 
             # record the reservation
